@@ -201,6 +201,22 @@ theorem poly_formula (grid : List Rat) (coeff : List (Rat × Rat)) :
   intro x _
   exact polyEval_eq coeff x
 
+/-- a polynomial source over an array without data evaluates the polynomial at the element index
+    0, 1, 2, … (`UINT_MAX` elements); its reset restores the first element -/
+theorem poly_index_formula (coeff : List (Rat × Rat)) (pos : Nat) (cache : Option Rat) :
+    (Gen.polyN coeff pos cache).all = (List.range 4294967295).map (fun (i : Nat) => IterSpec.polyAt coeff (i : Rat)) ∧
+    (Gen.polyN coeff pos cache).reset.1 = Gen.polyN coeff 0 none := by
+  refine ⟨?_, rfl⟩
+  simp only [Gen.all]
+  apply List.map_congr_left
+  intro i _
+  exact polyEval_eq coeff _
+
+/-- an infinity literal in a value list is an element of its own (the model's stand-in value `infVal` lies
+    beyond every `double`); NaN is not a number and ends the well-formed part of the list -/
+theorem values_inf : (create "1 inf -Infinity 3".toList).map Gen.all = some [1, infVal, -infVal, 3] ∧
+    create "-nan 1".toList = none := by decide +kernel
+
 example : (profile [-1, -1/2, 0, 1/2] "poly 1 0 0 : 1".toList).map Gen.all = some [0, 1/4, 1, 9/4] := by
   decide +kernel
 
